@@ -105,9 +105,12 @@ ALLCFG = ["asm", "asm+nobmi2", "asm-clang", "portable64", "portable32"]
 NDEBUG = ["asm-ndebug"]
 
 PROPS["C02"] = {
-    "translators": ["consts"],
-    "lean_targets": ["JediVerif.Properties.C02"] + targets_if_exist("JediVerif.Properties.C02b"),
-    "theorems": lambda: module_theorems("JediVerif.Properties.C02", "Jedi.C02") + module_theorems("JediVerif.Properties.C02b", "Jedi.C02"),
+    "translators": ["consts", "asm2lean"],
+    # C02's anchors include the x86-64 assembly: its all-entry-state theorems (C03, C03b: each routine = the portable model) are
+    # obligations of C02 as well, over the programs regenerated by asm2lean
+    "lean_targets": ["JediVerif.Properties.C02"] + targets_if_exist("JediVerif.Properties.C02b", "JediVerif.Properties.C03", "JediVerif.Properties.C03b"),
+    "theorems": lambda: module_theorems("JediVerif.Properties.C02", "Jedi.C02") + module_theorems("JediVerif.Properties.C02b", "Jedi.C02")
+                        + module_theorems("JediVerif.Properties.C03") + module_theorems("JediVerif.Properties.C03b"),
     "streams": lambda seed, tier: [
         {"cfg": c, "name": g, "lines": no_alias(gen(g, seed, n if tier == "quick" else 6 * n, tier))}
         for c in cfgs(tier, ["asm", "portable64", "portable32", "asm-ndebug"], ALLCFG + ["asan", "asan-portable", "asm-ndebug", "portable32-ndebug"])
